@@ -22,7 +22,7 @@ def add_metric(pr, gen_seed):
     from unified_planning.shortcuts import (MinimizeActionCosts, MinimizeSequentialPlanLength, MinimizeExpressionOnFinalState,
                                             MaximizeExpressionOnFinalState, Oversubscription, Int, Plus)
     rng = random.Random(gen_seed)
-    kind = rng.choice(["none", "costs", "length", "final", "oversub", "final", "oversub"])
+    kind = ["costs", "final", "oversub", "costs", "length", "none"][gen_seed % 6]
     p2 = pr.clone()
     nums = [f for f in p2.fluents if (f.type.is_int_type() or f.type.is_real_type()) and f.arity == 0]
     if kind == "none":
@@ -31,7 +31,11 @@ def add_metric(pr, gen_seed):
         costs = {}
         for a in p2.actions:
             c = Int(rng.randint(0, 3))
-            if nums and rng.random() < 0.5:
+            # prefer costs that read a fluent the action itself writes: pre- vs post-state then matters
+            written = [e.fluent.fluent() for e in a.effects if e.fluent.fluent() in nums]
+            if written and rng.random() < 0.8:
+                c = Plus(c, written[0]())
+            elif nums and rng.random() < 0.5:
                 c = Plus(c, nums[0]())
             costs[a] = c
         m = MinimizeActionCosts(costs)
@@ -89,10 +93,10 @@ def bounded(tier, seed):
     from unified_planning.engines.plan_validator import SequentialPlanValidator
     from unified_planning.engines.results import ValidationResultStatus
     from unified_planning.plans import SequentialPlan, ActionInstance
-    nprob, maxlen, cap = (60, 2, 60) if tier == "quick" else (500, 3, 300)
+    nprob, maxlen, cap = (120, 2, 40) if tier == "quick" else (700, 3, 300)
     failures, evals, nontrivial, samples = [], 0, set(), []
     kinds_seen = {}
-    for s, pr0 in SC.problems(seed + 13, nprob, features={"max_actions": 2}):
+    for s, pr0 in SC.problems(seed + 13, nprob, features={"max_actions": 2, "numeric": 1.0}):
         pr, metric, mkind = add_metric(pr0, s)
         if not SequentialPlanValidator.supports(pr.kind):
             continue      # outside the validator's declared supported kind (documented rejection)
